@@ -204,11 +204,16 @@ class RequestManager(BaseModel):
 
         request_type = self.request_types[request_key]
 
+        # a guard on the way to the leaf (e.g. "node is on" in front of a node's service/application/file_system
+        # sub-trees) refuses the request just as the leaf's own validator does when it is executed
+        if not request_type.validator(request_options, context):
+            return False
+
         # recurse if we are not at a leaf node
         if isinstance(request_type.func, RequestManager):
             return request_type.func.check_valid(request_options, context)
 
-        return request_type.validator(request_options, context)
+        return True
 
 
 class SimComponent(BaseModel):
